@@ -6,6 +6,9 @@ EXTENDS LogMw
 (* every assignment of the seven behaviours to the slots *)
 MCAll == [Procs -> {BehOps(b) : b \in AllBehNames}]
 
+(* the status-class behaviours (101, 1xx, 204, 304, 599, 999) against each other *)
+MCClasses == [Procs -> {BehOps(b) : b \in ClassBehNames}]
+
 T(a, b, c) == <<BehOps(a), BehOps(b), BehOps(c)>>
 
 (* three slots: one assignment mixing an explicit code, no call at all and   *)
